@@ -75,6 +75,7 @@ class Ctx:
         self.ax_seen = set()
         self.calls = {"atan2": [], "sqrt": []}
         self.nonneg_ids = set()
+        self.input_ids = set()
         self.lazy_sqrt = False
         self._keep = []
         self.sqrt_memo = {}   # (radicand ast id, lazy) -> (y, nan condition, radicand kept alive)
@@ -179,7 +180,7 @@ class Ctx:
             # non-linear feasibility: the linear-form abstraction is sound for `unsat`
             try:
                 from vt.symreal.abstract import abstract_query
-                asserts, _ = abstract_query(self.relevant([extra]), extra, self.nonneg_ids)
+                asserts, _ = abstract_query(self.relevant([extra]), extra, self.nonneg_ids, self.input_ids)
                 s2 = z3.Solver()
                 s2.set("timeout", 5000)
                 s2.add(*asserts)
